@@ -398,6 +398,13 @@ impl HomopolyPairHMM {
             for &s in &MATCH_STATES {
                 v[curr][s].reset(LogProb::zero());
             }
+            if max_edit_dist.is_some() {
+                // cells skipped by the band must not keep the values of the column before the last
+                for &s in &STATES {
+                    v[curr][s].reset(LogProb::zero());
+                }
+                min_edit_dist[curr].reset(usize::MAX);
+            }
         }
         let p = if free_end_gap_x {
             LogProb::ln_sum_exp(&prob_cols.iter().cloned().collect_vec())
